@@ -251,8 +251,10 @@ def prune_cache(keep=150, min_age_s=6 * 3600):
 _lean_built = None
 
 
-def lean_build(force=False):
-    """Regenerate constants from /repo and build library + driver.  Returns (ok, log)."""
+def lean_build(force=False, targets=None):
+    """Regenerate constants from /repo and build Lean targets.  Returns (ok, log).
+    targets=None builds the whole library and every driver (setup); a check passes its own property
+    module and drivers so that it is decided by its own proof obligations only."""
     global _lean_built
     if _lean_built is not None and not force:
         return _lean_built
@@ -269,7 +271,8 @@ def lean_build(force=False):
             ext_ok, ext_log = False, "constants extraction failed: %r" % (ex,)
         # default: the whole library and every driver whose root exists; VERIF_LEAN_TARGETS
         # restricts the build (development aid while other components are mid-edit)
-        targets = os.environ.get("VERIF_LEAN_TARGETS", "").split()
+        if os.environ.get("VERIF_LEAN_TARGETS", "").split():
+            targets = os.environ.get("VERIF_LEAN_TARGETS", "").split()
         if not targets:
             targets = ["Cjet"] + ["drv_" + os.path.basename(f)[3:-5].lower()
                                   for f in sorted(glob.glob(os.path.join(LEAN, "Drv*.lean")))
